@@ -4,6 +4,7 @@ import (
 	"bytes"
 	"context"
 	"fmt"
+	"hash/fnv"
 	"math/rand"
 	"os"
 	"regexp"
@@ -100,10 +101,20 @@ func famConcurrent(sc *scn.Scenario, em func(vt.Ev)) {
 			return (first - 1 + client*5) % len(basket)
 		}
 	}
+	// every client asks with a lookback delta of its own (none, 1 tick, 4 ticks: promql.QueryOpts are per query),
+	// and every other scenario gives the engines the list of all optimizers explicitly
+	qlbOf := func(client int) int64 { return []int64{0, 1, 4}[client%3] }
+	optimizers := "default"
+	if h := fnv.New32a(); true {
+		h.Write([]byte(sc.ID))
+		if (h.Sum32()>>4)%2 == 0 {
+			optimizers = "all"
+		}
+	}
 	series := run.SeriesOf(sc, sc.Data)
 	store := vstore.New(series)
 	var eng run.QueryEngine
-	soloEngine := func() run.QueryEngine { return engine.New(run.EngineOpts(sc, "default", false, nil)) }
+	soloEngine := func() run.QueryEngine { return engine.New(run.EngineOpts(sc, optimizers, false, nil)) }
 	if mix == "dist" || mix == "distfallback" {
 		var remotes []api.RemoteEngine
 		for e := 0; e < 2; e++ {
@@ -115,9 +126,9 @@ func famConcurrent(sc *scn.Scenario, em func(vt.Ev)) {
 			}
 			remotes = append(remotes, engine.NewLocalEngine(run.EngineOpts(sc, "default", false, nil), vstore.New(part)))
 		}
-		eng = engine.NewDistributedEngine(run.EngineOpts(sc, "default", false, nil), api.NewStaticEndpoints(remotes))
+		eng = engine.NewDistributedEngine(run.EngineOpts(sc, optimizers, false, nil), api.NewStaticEndpoints(remotes))
 	} else {
-		eng = engine.New(run.EngineOpts(sc, "default", false, nil))
+		eng = engine.New(run.EngineOpts(sc, optimizers, false, nil))
 	}
 	cl := newClassifier()
 	newRaces() // discard what earlier scenarios left
@@ -128,21 +139,22 @@ func famConcurrent(sc *scn.Scenario, em func(vt.Ev)) {
 		soloSeries[i] = vstore.Series{L: s.L.Copy(), T: s.T, V: s.V}
 	}
 	soloStore := vstore.New(soloSeries)
-	solo := map[int]bool{}
+	solo := map[string]bool{}
 	for c := 0; c < k; c++ {
 		qi := queryOf(c)
-		if solo[qi] {
+		key := fmt.Sprintf("q%d/lb%d", qi+1, qlbOf(c))
+		if solo[key] {
 			continue
 		}
-		solo[qi] = true
+		solo[key] = true
 		qs := *sc
 		qs.Q = basket[qi]
+		qs.QLB = qlbOf(c)
 		out := run.Exec(context.Background(), soloEngine(), soloStore, &qs, false)
 		o := wholeResult(out.C)
 		if out.CreateErr != nil {
 			o = Obs{Err: true}
 		}
-		key := fmt.Sprintf("q%d", qi+1)
 		em(vt.Ev{"ev": "cfg", "cfg": "solo " + basket[qi]})
 		em(vt.Ev{"ev": "obs", "key": key, "cls": cl.class(key, o), "src": "solo", "desc": o.String()})
 	}
@@ -181,6 +193,7 @@ func famConcurrent(sc *scn.Scenario, em func(vt.Ev)) {
 				qi := queryOf(c)
 				qs := *sc
 				qs.Q = basket[qi]
+				qs.QLB = qlbOf(c)
 				if mix == "cancelrace" {
 					// Cancel() from another goroutine while Exec runs; a cancelled run has no result to compare
 					if qry, err := run.Create(eng, store, &qs); err == nil {
@@ -211,7 +224,7 @@ func famConcurrent(sc *scn.Scenario, em func(vt.Ev)) {
 	store.Perturb = nil
 	em(vt.Ev{"ev": "cfg", "cfg": fmt.Sprintf("concurrent k=%d mix=%s rounds=%d stagger=%v", k, mix, rounds, stagger)})
 	for r := range results {
-		key := fmt.Sprintf("q%d", r.qi+1)
+		key := fmt.Sprintf("q%d/lb%d", r.qi+1, qlbOf(r.client))
 		em(vt.Ev{"ev": "obs", "key": key, "cls": cl.class(key, r.o), "src": fmt.Sprintf("client%d.%d", r.client, r.round), "desc": r.o.String()})
 	}
 	settle(baseGoroutines)
